@@ -107,5 +107,77 @@ def main():
     open(path, "w").write(s)
 
 
+def table_f():
+    """Inventory of numpoly's public callables: under contract (verified from source), assumed contract, bounded only, none."""
+    import props, re
+    import subprocess
+    code = ("import sys, json, inspect; sys.path.insert(0, '/repo'); import numpoly; "
+            "print(json.dumps([n for n in sorted(dir(numpoly)) if not n.startswith('_') and (inspect.isfunction(getattr(numpoly, n)) or "
+            "(callable(getattr(numpoly, n)) and getattr(getattr(numpoly, n), '__module__', '').startswith('numpoly')))]))")
+    try:
+        out = subprocess.run(["/venv/bin/python", "-c", code], capture_output=True, text=True, timeout=120).stdout.strip().splitlines()
+        public = json.loads(out[-1]) if out else []
+    except Exception:
+        public = []
+    if not public:
+        old = open(os.path.join(ROOT, "DESIGN.md")).read()
+        m = re.search(r"<!-- BEGIN:table-F -->\n(.*?)\n<!-- END:table-F -->", old, re.S)
+        return m.group(1) if m else ""
+    verified, assumed = {}, {}
+    for n, c in props.ALL_CONTRACTS.items():
+        try:
+            k = sum(1 for _ in c.cases())
+        except Exception:
+            k = 0
+        short = n.split(".")[-1]
+        (verified if k > 0 else assumed).setdefault(short, []).append(n)
+    used_in = {}
+    for pid, P in props.PROPS.items():
+        for n in P.get("contracts", []):
+            used_in.setdefault(n.split(".")[-1], set()).add(pid)
+    bounded = {}
+    for path in glob.glob(os.path.join(ROOT, "conc", "checks_c*.py")):
+        src = open(path).read()
+        pid = "C" + re.search(r"checks_c(\d\d)", path).group(1)
+        for fn in set(re.findall(r"numpoly\.([a-z_0-9]+)\b", src)) | set(re.findall(r"[\"']([a-z_][a-z_0-9]*)[\"']", src)):
+            bounded.setdefault(fn, set()).add(pid)          # called as numpoly.f, or by name through getattr(numpoly, "f")
+    rows = ["| function | status | properties whose check covers it |", "|---|---|---|"]
+    cnt = {"verified": 0, "assumed": 0, "bounded": 0, "none": 0}
+    for f in public:
+        if f in verified:
+            st, ps = "under contract, obligations discharged from the real source", sorted(used_in.get(f, set()) | bounded.get(f, set()))
+            cnt["verified"] += 1
+        elif f in assumed:
+            st, ps = "ASSUMED contract (used at call sites, body not verified)", sorted(used_in.get(f, set()) | bounded.get(f, set()))
+            cnt["assumed"] += 1
+        elif f in bounded:
+            st, ps = "bounded run-time checks only", sorted(bounded[f])
+            cnt["bounded"] += 1
+        else:
+            st, ps = "not covered by any check", []
+            cnt["none"] += 1
+        rows.append(f"| {f} | {st} | {', '.join(ps)} |")
+    methods = sorted(n for n in props.ALL_CONTRACTS if ".ndpoly." in n or n in ("numpoly.ndpoly", "numpoly.simple_dispatch", "numpoly._prod",
+                                                                                  "numpoly.postprocess_attributes", "numpoly.get_division_candidate")
+                     or n.count(".") == 2)
+    head = (f"{len(public)} public callables of the `numpoly` namespace: {cnt['verified']} under contract with discharged obligations, "
+            f"{cnt['assumed']} with an assumed contract only, {cnt['bounded']} covered by bounded run-time checks only, {cnt['none']} not covered. "
+            f"Further functions under contract that are not in the public namespace (methods, helpers): {', '.join(m.replace('numpoly.', '') for m in methods)}.\n\n")
+    return head + "\n".join(rows)
+
+
+_old_main = main
+
+
+def main():
+    _old_main()
+    path = os.path.join(ROOT, "DESIGN.md")
+    s = open(path).read()
+    a, b = "<!-- BEGIN:table-F -->", "<!-- END:table-F -->"
+    if a in s and b in s:
+        s = s[: s.index(a) + len(a)] + "\n" + table_f() + "\n" + s[s.index(b):]
+        open(path, "w").write(s)
+
+
 if __name__ == "__main__":
     main()
